@@ -306,9 +306,9 @@ class VariableElimination(Inference):
         # Step 2: If virtual_evidence is provided, modify the network.
         if isinstance(self.model, BayesianNetwork) and (virtual_evidence is not None):
             orig_model = self.model
-            self._virtual_evidence(virtual_evidence)
             virt_evidence = {"__" + str(cpd.variables[0]): 0 for cpd in virtual_evidence}
             try:
+                self._virtual_evidence(virtual_evidence)
                 return self.query(
                     variables=variables,
                     evidence={**evidence, **virt_evidence},
@@ -561,9 +561,9 @@ class VariableElimination(Inference):
 
         if isinstance(self.model, BayesianNetwork) and (virtual_evidence is not None):
             orig_model = self.model
-            self._virtual_evidence(virtual_evidence)
             virt_evidence = {"__" + str(cpd.variables[0]): 0 for cpd in virtual_evidence}
             try:
+                self._virtual_evidence(virtual_evidence)
                 return self.map_query(
                     variables=variables,
                     evidence={**evidence, **virt_evidence},
@@ -1119,9 +1119,9 @@ class BeliefPropagation(Inference):
 
         # Step 2: If virtual_evidence is provided, modify model and evidence.
         if isinstance(self.model, BayesianNetwork) and (virtual_evidence is not None):
-            self._virtual_evidence(virtual_evidence)
             virt_evidence = {"__" + str(cpd.variables[0]): 0 for cpd in virtual_evidence}
             try:
+                self._virtual_evidence(virtual_evidence)
                 return self.query(
                     variables=variables,
                     evidence={**evidence, **virt_evidence},
@@ -1225,9 +1225,9 @@ class BeliefPropagation(Inference):
         orig_model = self.model.copy()
 
         if isinstance(self.model, BayesianNetwork) and (virtual_evidence is not None):
-            self._virtual_evidence(virtual_evidence)
             virt_evidence = {"__" + str(cpd.variables[0]): 0 for cpd in virtual_evidence}
             try:
+                self._virtual_evidence(virtual_evidence)
                 return self.map_query(
                     variables=variables,
                     evidence={**evidence, **virt_evidence},
